@@ -125,6 +125,11 @@ PROPS = {
         "mc": L0_QUICK + L0_THOROUGH,
         "drivers": [drv("matrix", "debug", shards={"quick": 8, "thorough": 14}, env={"HARNESS_SAMPLE": "2"}, tiers=Q), drv("matrix", "debug", tiers=T), drv("history", "debug"), drv("history", "release", tiers=T),
                     drv("origins", "debug", shards={"quick": 10, "thorough": 14}),
+                    # a cross-section of every other family: the representation rule is judged on every register any call writes
+                    *[drv(d, "debug", shards={"quick": 2, "thorough": 6}, env={"HARNESS_SAMPLE": "4"}, tiers=Q) for d in
+                      ("addsub", "mul", "div", "bits", "text", "conv", "roots", "pow", "gcd", "forms", "bytes", "sign", "modpow")],
+                    *[drv(d, "debug", shards={"quick": 2, "thorough": 6}, env={"HARNESS_SAMPLE": "2"}, tiers=T) for d in
+                      ("addsub", "mul", "div", "bits", "text", "conv", "roots", "pow", "gcd", "forms", "bytes", "sign", "modpow")],
                     drv("arb", "debug", features=["std", "rand", "serde", "quickcheck", "arbitrary"], shards={"quick": 4, "thorough": 8})],
         "owns_reasons": ("noncanon",),
     },
